@@ -252,7 +252,13 @@ class MGen(object):
             inner3 = [self._read(v), self._assign(v), self._read(v)]
             if rng.random() < 0.5:
                 inner3 = [self._read(v), {'k': 'if', 'test': [], 'body': [self._assign(v)], 'orelse': []}, self._read(v)]
+            last = late and rng.random() < 0.4
+            if last:
+                # the owner's own assignment comes after the call that binds the variable through the closure: f3 must bind first
+                inner3 = [self._assign(v), self._read(v)]
             f3 = self._def('f3', [], inner3, nl=[v])
+            if last:
+                f3['no_lead'] = True
             mid = [f3]
             if rng.random() < 0.5:
                 mid.insert(0, self._assign(w))
@@ -264,14 +270,16 @@ class MGen(object):
                 b1.append(self._assign(v))
             if direct:
                 b1 += [f3]
-                if late:
+                if late and not last:
                     b1.append(self._assign(v))
                 b1 += [self._call('f3'), self._read(v)]
             else:
                 b1 += [f2]
-                if late:
+                if late and not last:
                     b1.append(self._assign(v))
                 b1 += [self._call('f2'), self._read(v)]
+            if last:
+                b1.append(self._assign(v))
             body += [self._def('f1', [self._param('pos', v)] if as_param else [], b1), self._call('f1')]
         elif kind == 'params':
             forms = ['posonly', 'pos', 'posdef', 'var', 'kwonly', 'kwdef', 'kw']
@@ -386,7 +394,7 @@ def fix_nonlocals(body, rng, enclosing=None, gen=None):
                     s['nl'] = [rng.choice(c)]
             # a declared name is interesting when the function reads it first and rebinds it afterwards
             for n in s['gl'] + s['nl']:
-                if gen is not None and rng.random() < 0.6:
+                if gen is not None and rng.random() < 0.6 and not s.get('no_lead'):
                     s['body'].insert(0, {'k': 'read', 'atoms': [[n, gen.rid()]]})
                 if gen is not None and rng.random() < 0.6:
                     at = len(s['body']) - (1 if s['body'] and s['body'][-1]['k'] == 'return' else 0)
